@@ -298,6 +298,13 @@ class Interp(Engine):
             # Python floor semantics; z3 div/mod are Euclidean: they agree when the divisor is positive
             pos = self.check_sat([y <= 0]) == z3.unsat
             if pos:
+                dom = getattr(self.contract, 'divisor_domain', None)
+                if dom and not z3.is_int_value(z3.simplify(y)):
+                    # divisors range over a small domain (alignments): expand into linear cases
+                    r = (x / y) if isinstance(op, ast.FloorDiv) else (x % y)
+                    for d in reversed(dom):
+                        r = z3.If(y == d, (x / d) if isinstance(op, ast.FloorDiv) else (x % d), r)
+                    return SInt(r)
                 return SInt(x / y) if isinstance(op, ast.FloorDiv) else SInt(x % y)
             q, r = x / y, x % y
             if isinstance(op, ast.FloorDiv):
@@ -815,7 +822,20 @@ class Interp(Engine):
 
     # ------------------------------------------------------------------ statements
     def exec_block(self, stmts, env, ret_ctx=VALUE):
-        for s in stmts:
+        for i, s in enumerate(stmts):
+            if self.pure and isinstance(s, ast.If):
+                c = self.truthy(self.eval(s.test, env, TRUTH))
+                if not isinstance(c, bool):
+                    # pure (spec / quantified) mode: no forks; both continuations must return a value
+                    vals = []
+                    for branch, guard in ((s.body, c), (s.orelse, z3.Not(c))):
+                        try:
+                            self.under(guard, lambda: self.exec_block(list(branch) + list(stmts[i + 1:]), Env(env), ret_ctx))
+                        except _Return as r:
+                            vals.append(r.value)
+                        else:
+                            raise OutOfSubset('pure-mode conditional whose branch does not return')
+                    raise _Return(self.merge(c, vals[0], vals[1]))
             self.exec(s, env, ret_ctx)
 
     def exec(self, node, env, ret_ctx=VALUE):
